@@ -22,6 +22,10 @@ import Proofs.LexerRegexId
 import Proofs.TokenizerSpace
 import Martian.LexerActions
 import Proofs.LexerActions
+import Martian.LexerLR
+import Martian.LexerLRCheck
+import Martian.LexerLRGen
+import Proofs.LexerLR
 import Martian.Tokenizer
 import Proofs.Tokenizer
 import Gen.Facts
@@ -469,6 +473,63 @@ theorem rules_decide_semantics (w post : Bytes) :
 
 end denotational
 
+/-! ## The PARSER DRIVER: `mmParse` on the regenerated goyacc tables -/
+
+section lr
+open Martian.LexerLR
+
+/-- The table checker is sound, for ANY tables and certificate: if `check T C`
+evaluates to true then for every input (the ids `Lex` returns, call by call)
+and every oracle for the semantic actions that can abort the parse, the driver
+loop `mmParse` — shift / reduce / goto, exception table, `mmlex1`, error
+recovery and `mmErrorMessage` — never indexes outside a table and never pops
+the bottom of its stack (`panic`), stops within `fuelFor` rounds (`outOfFuel`),
+and returns accept, an action error, or a syntax error at a lookahead token of
+the input. -/
+theorem lr_checker_sound (T : Tables) (C : Cert) (h : check T C = true) (fail : Nat → Bool) (input : List Int) :
+    GoodOutcome input.length (runFuel T fail (fuelFor C input) (init input) [.push 0]).1 :=
+  parse_total h fail input
+
+/-- Regenerated obligation: the tables found in grammar.go now, with the
+certificate the extractor computed from them (which states can lie below which
+on the stack; a rank of the states that every reduction lowers), pass the
+check.  Evaluated by the kernel: every (state, token) cell, every reduction
+with every possible exposed state. -/
+theorem lr_tables_checked : check genTables genCert = true := by decide +kernel
+
+/-- (a)–(d) for the parser as generated: memory safety, termination, progress
+of the error path (no state shifts `error`, so a syntax error ends the parse at
+once), result located. -/
+theorem lr_driver_total (fail : Nat → Bool) (input : List Int) :
+    GoodOutcome input.length (runFuel genTables fail (fuelFor genCert input) (init input) [.push 0]).1 :=
+  parse_total lr_tables_checked fail input
+
+-- non-vacuity: `[1]` is accepted; `[1` is a syntax error at token 2 (the end of the input)
+example : (runFuel genTables (fun _ => false) 100 (init [91, 57381, 93]) []).1 = .accept ∧
+    (runFuel genTables (fun _ => false) 100 (init [91, 57381]) []).1 = .syntaxError 2 := by decide +kernel
+
+/-- **Lexing + LR driver + modelled actions are total and located**: for every
+source text (any bytes) the scanner loop terminates and its tokens reconstruct
+the source (`lex_terminates`, `lex_reconstructs`), the parser driver run on
+the scanner's token ids returns accept, an action error or a syntax error at
+one of these tokens or at the end of the input — whose reported line is its
+real line (`lex_real_line`) — and every modelled semantic action, on a token the
+scanner can emit, yields a value or a located error (`actions_total`).
+OUTSIDE: the Go code inside the semantic actions other than the modelled
+conversions (AST node construction, `append`, map insertion, comment
+attachment), the growth of the value stack (`make`/`copy`), and everything after
+parsing (include resolution, the compiler passes) — covered by the search only. -/
+theorem front_end_total (fail : Nat → Bool) (src : Martian.Lexer.Bytes) :
+    GoodOutcome (Martian.Tokenizer.lexAll src).length (parseSource fail src).1 ∧
+    (((Martian.Tokenizer.lexAllRaw src).1.map Martian.Tokenizer.Tok.text).flatten ++ (Martian.Tokenizer.lexAllRaw src).2 = src) ∧
+    (∀ (s : Martian.LexerActions.Site) (k : Martian.LexerActions.Kind) (head t : Martian.Lexer.Bytes),
+      Martian.LexerActions.emits k head t → Martian.LexerActions.act s k t ≠ .panic) := by
+  refine ⟨?_, (lex_reconstructs src).1, fun s k head t h => Martian.LexerActions.actions_total s k head t h⟩
+  have := lr_driver_total fail (tokenIds src)
+  simpa [parseSource, tokenIds] using this
+
+end lr
+
 /-- The regenerated facts these theorems are stated against were really found
 in the sources (a fact whose pattern is no longer found is emitted from its
 committed default with `_extracted := false`: this obligation then breaks
@@ -476,7 +537,14 @@ instead of the theorems silently talking about the default). -/
 theorem facts_extracted :
     Gen.tokIntRegex_extracted = true ∧ Gen.tokFloatRegex_extracted = true ∧ Gen.tokStringRegex_extracted = true ∧
     Gen.tokIdRegex_extracted = true ∧ Gen.tokSwitch_extracted = true ∧ Gen.tokIds_extracted = true ∧
-    Gen.tokSpaceAscii_extracted = true ∧ Gen.unicodeWhiteSpace_extracted = true := by decide
+    Gen.tokSpaceAscii_extracted = true ∧ Gen.unicodeWhiteSpace_extracted = true ∧
+    Gen.mmExca_extracted = true ∧ Gen.mmAct_extracted = true ∧ Gen.mmPact_extracted = true ∧
+    Gen.mmPgo_extracted = true ∧ Gen.mmR1_extracted = true ∧ Gen.mmR2_extracted = true ∧
+    Gen.mmChk_extracted = true ∧ Gen.mmDef_extracted = true ∧ Gen.mmTok1_extracted = true ∧
+    Gen.mmTok2_extracted = true ∧ Gen.mmTok3_extracted = true ∧ Gen.mmLast_extracted = true ∧
+    Gen.mmPrivate_extracted = true ∧ Gen.mmFlag_extracted = true ∧ Gen.mmErrCode_extracted = true ∧
+    Gen.mmEofCode_extracted = true ∧ Gen.mmNToknames_extracted = true ∧ Gen.mmNErrorMessages_extracted = true ∧
+    Gen.mmFailProds_extracted = true ∧ Gen.mmPred_extracted = true ∧ Gen.mmRank_extracted = true := by decide
 
 /-! ### definitional unfoldings (documentation of the model, not guarantees) -/
 
